@@ -227,6 +227,7 @@ struct nng_aio {
 	bool         a_sleep;      // Sleeping with no action
 	bool         a_expire_ok;  // Expire from sleep is ok
 	bool         a_expiring;   // Expiration in progress
+	bool         a_expire_done; // Completed while expiring, callback owed
 	bool         a_use_expire; // Use expire instead of timeout
 	bool         a_abort;      // Task was aborted
 	bool         a_init;       // Initialized this
